@@ -50,6 +50,11 @@ def items(depth):
         n = draw(st.sampled_from([1, 1, 2, 2, 3, 4]))
         clauses = [{"cond": draw(cond()), "items": draw(items(depth - 1))} for _ in range(n)]
         els = draw(items(depth - 1)) if draw(st.booleans()) else None
+        if draw(st.integers(0, 3)) == 0:
+            # the boundary class: nothing selected, closed by indentation
+            for c in clauses:
+                c["cond"] = {"lit": False}
+            return ["block", clauses, None, False]
         return ["block", clauses, els, draw(st.booleans())]       # last: explicit @end
 
     @st.composite
